@@ -11,7 +11,8 @@ package main
 // commands that ran, the final work-directory tree, the script file bytes afterwards, the exit status.
 // The oracle is the generator itself: it builds each script from a recipe (which line fails and why,
 // where stop/skip sit, which golden entries mismatch) and so knows the expected observables by
-// construction, from a deliberately naive bookkeeping of files, directories, buffers and variables.
+// construction, from a deliberately naive bookkeeping of files, directories, buffers, variables and
+// outstanding background commands (helper program `vh`: helper.go, genbg.go).
 
 import (
 	"bytes"
@@ -714,8 +715,24 @@ func runTsRun(tier string, seed int64, model string, replay string) *corr.Result
 					es = implLine
 				}
 			}
+			// This is also the verdict-level oracle for background commands and long lines: the expectation
+			// comes from the generator's own bookkeeping (genbg.go), not from the Lean model.  A script in
+			// which an executed line has to fail — a `wait` or `skip` that must report a background command
+			// which ended against its line included — reported as pass / skip is class
+			// "verdict-fail-reported-pass|skip"; a failing line after a 64 KiB line reported at another
+			// line (or not at all) is "wrong-line" / "verdict-fail-reported-pass".
 			if es != implLine {
-				res.Violate(owner[0], in, "expected "+es+" got "+implLine+" "+impl[i].note+" ["+c.recipe+"]", classOf(c.exp, &impl[i]))
+				var about []string
+				for _, t := range c.tags {
+					if strings.HasPrefix(t, "bg@") || strings.HasPrefix(t, "long-line") || strings.HasPrefix(t, "bad-skip") || strings.HasPrefix(t, "bad-wait") {
+						about = append(about, t)
+					}
+				}
+				extra := ""
+				if len(about) > 0 {
+					extra = " {" + strings.Join(about, " ") + "}"
+				}
+				res.Violate(owner[0], in, "expected "+es+" got "+implLine+" "+impl[i].note+" ["+c.recipe+"]"+extra, classOf(c.exp, &impl[i]))
 			}
 		}
 		// -- oracle 2 (C01): the exit status of the standalone command is the one that belongs to the verdict
@@ -770,7 +787,7 @@ func runTsRun(tier string, seed int64, model string, replay string) *corr.Result
 
 	res.Evaluations = len(cases)
 	res.DistinctNontrivial = nontrivial
-	res.Rule = "distinct (flags, script file) cases whose recipe contains at least one of: a line built to fail, stop, skip, a [cond] guard, a negated command, a custom command, or (C16) a golden entry compared under UpdateScripts; each case is run through testscript.RunT with a recording T, through the Lean model and (builtin-only cases) through the cmd/testscript binary, and verdict, first FAIL line, probe trace, final tree, script bytes and exit status are compared with the model and with the expectation the generator derived from its recipe"
+	res.Rule = "distinct (flags, script file) cases whose recipe contains at least one of: a line built to fail, stop, skip, a [cond] guard, a negated command, a custom command, exec / a background command / wait / kill, a line of 64 KiB or more, or (C16) a golden entry compared under UpdateScripts; each case is run through testscript.RunT with a recording T, through the Lean model and (builtin-only cases) through the cmd/testscript binary, and verdict, first FAIL line, probe trace, final tree, script bytes and exit status are compared with the model and with the expectation the generator derived from its recipe"
 	for _, i := range []int{0, 1, len(cases) / 3, len(cases) / 2, len(cases) - 1} {
 		if i >= 0 && i < len(cases) {
 			res.Samples = append(res.Samples, map[string]string{"case": reqs[i], "script": string(cases[i].file), "recipe": cases[i].recipe, "impl": impl[i].String(cases[i].file), "model": modelOut[i]})
